@@ -44,11 +44,19 @@ class Prop:
         self.tie(st, "thorough", seed + 1)
         return st
 
+    def bin_for(self, case):
+        """the harness binary whose `run` mode evaluates this case line (by its first token)"""
+        if not case or case.startswith("#"):
+            return self.run_bin
+        b = {"dec": "dec", "var": "dec", "addr": "addr", "rid": "rid", "vq": "vq", "stream": "stream",
+             "net": "net", "node": "node", "udp": "udp"}.get(case.split(" ")[0])
+        return b if b in self.bins else self.run_bin
+
     def shrink(self, case, still_bad):
         if self.run_bin is None or case.startswith("#"):
             return case
-        head = {"stream": 4, "vq": 2, "net": 2, "node": 2}.get(case.split(" ")[0], 1)
-        return core.shrink_tokens(self.run_bin, case, head, still_bad, budget=60)
+        head = {"stream": 4, "vq": 2, "net": 2, "node": 2, "udp": 2}.get(case.split(" ")[0], 1)
+        return core.shrink_tokens(self.bin_for(case), case, head, still_bad, budget=60)
 
     def known_match(self, entry, v):
         ident = entry.get("identity", {})
@@ -170,7 +178,7 @@ class Prop:
         for v in failing[:3]:
             if self.run_bin and v.case and not v.case.startswith("#") and self.reexecutable(v.case):
                 v.case = self.shrink(v.case, lambda imp, oracle, model: "FAIL" in oracle)
-                v.impl, v.oracle, v.model = core.eval_case(self.run_bin, v.case)
+                v.impl, v.oracle, v.model = core.eval_case(self.bin_for(v.case), v.case)
             if v.case not in seen:
                 seen.add(v.case)
                 out.append(v)
@@ -182,7 +190,7 @@ class Prop:
             v = dis[0]
             if self.run_bin and not v.case.startswith("#") and self.compare_possible() and self.reexecutable(v.case):
                 v.case = self.shrink(v.case, lambda imp, oracle, model: imp != model)
-                v.impl, v.oracle, v.model = core.eval_case(self.run_bin, v.case)
+                v.impl, v.oracle, v.model = core.eval_case(self.bin_for(v.case), v.case)
             out.append(v)
         others = [v for v in violations if not v.case]
         if others:
@@ -212,7 +220,7 @@ class Prop:
             return 1
         core.gen_constants()
         core.lake_build(["mio-driver"])
-        imp, oracle, model = core.eval_case(self.run_bin, case)
+        imp, oracle, model = core.eval_case(self.bin_for(case), case)
         log("case  : " + case[:2000])
         log("impl  : " + imp[:2000])
         log("model : " + model[:2000])
